@@ -18,7 +18,7 @@ PROPS = {
         "module": "SimilarVerif.Props.C01",
         "suites": ["raw", "deadline"],
         "rule": "raw: all sequence pairs up to length 4 (thorough 5) over 3 symbols x 3 algorithms, all sub-range pairs of pairs up to length 3 (thorough 4) with slice and offset lookups, plus structured random pairs (7 families); non-trivial = at least one change and one equal item; distinct by request hash",
-        "theorem_status": "LCS full (total + valid, every clock). Myers full (total + valid, every clock): Myers' middle-snake theory is formalised (furthest-reaching invariant, overlap at ceil(D/2), split point on an optimal path inside the box, not a corner) and discharges SnakeInBox/SnakeFound for every environment. Patience full (total + valid, every clock; needs the same-side comparisons of `unique` in bounds). Replay/coverage corollaries.",
+        "theorem_status": "LCS full (total + valid, every clock). Myers full (total + valid, every clock): Myers' middle-snake theory is formalised (furthest-reaching invariant, overlap at ceil(D/2), split point on an optimal path inside the box, not a corner) and discharges SnakeInBox/SnakeFound for every environment. Patience full (total + valid, every clock; needs the same-side comparisons of `unique` in bounds). Replay/coverage corollaries. Shift invariance full: diffing a sub-range = diffing the extracted slices with every index shifted by the range starts, all algorithms, every clock, aborts and counters included, also for arbitrary related hooks (Lemmas/Shift.lean).",
         "level_text": "Lean theorems: LCS total+valid (all inputs, ranges, clocks); Myers partial correctness relative to the explicit hypothesis SnakeInBox; replay and coverage corollaries. Exact call traces, comparison and probe counts of all three algorithms are compared with the model on exhaustive small scopes and random inputs, and an independent strict walker validates the implementation's streams.",
         "level_note": "the model is tied to the code by differential testing only; release-build wrap-around of usize is modelled as a panic (checked build)",
         "assumptions": ["usize arithmetic modelled on Nat; overflow out of scope", "shift invariance of sub-range diffs is validated on the implementation (suite raw), not a theorem"],
@@ -59,7 +59,7 @@ PROPS.update({
         "module": "SimilarVerif.Props.C02",
         "suites": ["cap", "deadline", "text"],
         "rule": "cap: capture_diff_deadline on all pairs up to length 4 (thorough 5) over 3 symbols, all sub-ranges of pairs up to 3 (thorough 4) with slice/offset lookups, structured random pairs; each case also through Compact(Replace(hook)) built by hand and with the repair switch; deadline: every expiry point; non-trivial = a change and an equal item",
-        "theorem_status": "full for everything that follows from validity of the op list (application, coverage, ratio in [0,1], ratio = 1 iff no change iff element-wise equal) and for the Replace->Capture stage on any valid script; Compact stage: partial correctness (C10); end-to-end factorisation of captureDiff into raw stream -> clean-up -> Replace: Lemmas/Capture.lean in progress",
+        "theorem_status": "full for everything that follows from validity of the op list (application, coverage, ratio in [0,1], ratio = 1 iff no change iff element-wise equal) and for the Replace->Capture stage on any valid script; Compact stage and end-to-end factorisation of captureDiff into raw stream -> clean-up -> Replace proved (Lemmas/Capture.lean): whatever capture_diff_deadline returns is a valid alternating op list, all algorithms, every clock; identical inputs give exactly [Equal(os,ns,n)] (nothing for n = 0) for every algorithm and clock, never a panic (Lemmas/Identical.lean; Patience under EqPattern, counterexample without it recorded)",
         "level_text": "Lean theorems about any valid op list and about the Replace stage; captured op lists of the implementation compared with the model exactly (incl. comparison/probe counts) and validated by an independent walker / replayer / ratio check.",
         "level_note": "end-to-end statement for Myers/Patience inherits C01's hypotheses; f32 ratio is computed natively in the driver, theorems are over the exact fraction",
     },
@@ -87,7 +87,7 @@ PROPS.update({
         "module": "SimilarVerif.Props.C07",
         "suites": ["deadline", "text"],
         "rule": "deadline: all pairs up to length 4 over 2 (thorough 3) symbols + random pairs x 3 algorithms x every expiry point k = 0..#checks+1 (sampled beyond 40) through algorithms::diff_deadline and capture_diff_deadline under the virtual clock; validators: script validity, finish once, comparisons after expiry <= 2x the hand-derived bound, never-expiring = none; text: TextDiffConfig deadline/timeout reach the algorithm; non-trivial = the clock actually expired",
-        "theorem_status": "validity and finish-once for EVERY expiry point: LCS full (incl. totality), Myers full incl. totality, Patience whenever it returns; never-expiring deadline = no deadline (all algorithms, recording hook and capture pipeline): full; LCS no comparison after expiry: full; Myers <= 3*min(N,M) comparisons after the first expired probe: full; Patience post-expiry bound: not a theorem, measured at every expiry point",
+        "theorem_status": "validity and finish-once for EVERY expiry point: LCS full (incl. totality), Myers full incl. totality, Patience whenever it returns; never-expiring deadline = no deadline (all algorithms, recording hook and capture pipeline): full; LCS no comparison after expiry: full; Myers <= 3*min(N,M) comparisons after the first expired probe: full; Patience entered with an expired deadline: <= 5*min(N,M)+4 comparisons (full); Patience expiring at a later probe: bound not a theorem (partial), measured at every expiry point",
         "level_text": "Lean theorems quantify over all virtual-clock states, i.e. all expiry points; the virtual clock is the cfg(similar_verif) hook in /repo, so expiry at the k-th check is an input of the correspondence as well.",
         "level_note": "real time cannot be exhibited by the model: Instant::now() > deadline is replaced by the virtual clock under the guard",
     },
@@ -133,7 +133,7 @@ PROPS.update({
         "module": "SimilarVerif.Props.C19",
         "suites": ["cost"],
         "rule": "cost: 700 (thorough 6000) generated pairs up to 600 (thorough 3000) items per side from 7 families (near-identical, block moves, periodic, heavy repeats, unrelated, unique-rich, small alphabet) x Myers and Patience; comparisons counted by the element type; non-trivial = near-identical (D*8 < N+M)",
-        "theorem_status": "Myers full: cmps <= 22 (N+M+1)(D+1) for every input without deadline (potential argument + middle-snake theory); per-scan costs; Patience: each of its Myers runs obeys the bound, the composite bound with D = its own script is measured (cross and same-side comparisons, constant 3 / 8 per item)",
+        "theorem_status": "Myers full: cmps <= 22 (N+M+1)(D+1) for every input without deadline (potential argument + middle-snake theory); per-scan costs; Patience full: cmps <= 57 (N+M+1)(D+1) with D the size of the script it reports, for element tests that come from two label sequences (EqPattern; false for inconsistent same-side relations, counterexample recorded): 22 for the outer run over the unique items, whose edit distance is at most the cost of any valid script (outer_le_cost), at most 35 for scans, gap runs and tail run; measured on the implementation: cross comparisons below 0.9 (N+M+1)(D+1), same-side below 1.4 per item",
         "level_text": "Lean theorems for the cost of the prefix/suffix scans; the cost model (exact comparison counts) is validated against the code on every request of every suite; the (N+M+1)(D+1) bound is checked by measurement.",
         "level_note": "the proved constant (22) is far from the measured one (< 0.9); the Patience composite bound is not a theorem; wall-clock time is not modelled, comparisons are the proxy the property names",
     },
@@ -154,7 +154,7 @@ PROPS.update({
         "module": "SimilarVerif.Props.C05",
         "suites": ["udiff"],
         "rule": "udiff: line diffs of all texts of up to 4 lines from {a LF, b LF, a CRLF, c CR} optionally ending in a line without terminator, random longer line texts with few edits (several hunks), bytes with invalid UTF-8 x 3 algorithms x radius 0..3 (thorough 0..4) x header on/off x Display/to_writer x str/bytes; the request carries the implementation's ops and tokens, the model renders from them; validator: strict parse + apply of the real output, header counts/starts/order, context <= radius, deletions before insertions, marker placement, writer vs Display; non-trivial = output has >= 1 hunk and context",
-        "theorem_status": "structured part full under Exact (positions exact, C11): renderer total, output = structured hunks, strict application gives new, counts/positions/order, equal inputs render empty, context <= radius, deletions first, line and range formats. Byte-level parse(serialize) not formalised. The unchanged code violates the Exact hypothesis at the compaction swap (known finding): counterexample theorem included",
+        "theorem_status": "structured part full under Exact (positions exact, C11): renderer total, output = structured hunks, strict application gives new, counts/positions/order, equal inputs render empty, context <= radius, deletions first, line and range formats. Byte level: a strict parser of the unified format is proved to read the printed bytes back as exactly the structured hunks (header names, all three range forms, count-driven bodies, missing-newline markers, LF/CRLF/CR terminators) and the parsed hunks patch old into new (Lemmas/UdiffParse.lean; to_writer path with hints, line tokens, names without LF). The unchanged code violates the Exact hypothesis at the compaction swap (known finding): counterexample theorem included",
         "level_text": "Lean theorems about the model renderer for all valid exact op lists, radii and settings; rendered bytes of the implementation compared with the model byte for byte (Display and writer), and parsed + strictly applied by an independent validator.",
         "level_note": "KNOWN FINDING KF-compact-swap-udiff (stale carried index after the compaction swap feeds wrong header positions); a failing case is attributed to it only if it disappears when the diff is rebuilt with the cfg(similar_verif) swap repair",
     },
